@@ -1,12 +1,228 @@
-/- Driver operations of property C09 (ops are named "c09.<name>"). Core + Lean.Data.Json only. -/
+/- Driver operations of property C09 (ops are named "c09.<name>"). Core + Lean.Data.Json only.
+
+  c09.abs   {fmt: "osu"|"qua"|"sm"|"bms"|"o2j", …payload of the format's own denote op}
+            → {"ok": {"charts": [AChart…], "valid": bool, "why": […], "info": {…}}} | {"err": class}
+            AChart = {"hits": [[t, col]…], "holds": [[t, col, len]…], "bpms": [[t, bpm]…], "facts": {…}}
+  c09.close {eps, res: "ms" | [f, g] (beats, each [num, den]), exact, shift, a: AChart, b: AChart} → {"ok": {close, hits, holds, bpms}}
+-/
 import Reamber.Util.Json
+import Reamber.Spec.Pipeline
+import Reamber.Drv.C01
+import Reamber.Drv.C04
+import Reamber.Drv.C06
 
 open Lean Reamber.J
 
 namespace Reamber.C09
 
-def handle (op : String) (_j : Json) : Except String Json :=
+open Reamber.Pipeline Reamber.Timing
+
+def hitJ (h : AHit) : Json := Json.arr #[ratToJson h.1, intToJson h.2]
+def holdJ (h : AHold) : Json := Json.arr #[ratToJson h.1, intToJson h.2.1, ratToJson h.2.2]
+def bpmJ (b : ABpm) : Json := Json.arr #[ratToJson b.1, ratToJson b.2]
+
+def hitOf (j : Json) : Except String AHit :=
+  match j with
+  | Json.arr #[t, c] => do .ok (← ratOf? t, ← intOf? c)
+  | _ => .error s!"hit expected [time, column]: {j}"
+
+def holdOf (j : Json) : Except String AHold :=
+  match j with
+  | Json.arr #[t, c, l] => do .ok (← ratOf? t, ← intOf? c, ← ratOf? l)
+  | _ => .error s!"hold expected [time, column, length]: {j}"
+
+def bpmOf (j : Json) : Except String ABpm :=
+  match j with
+  | Json.arr #[t, b] => do .ok (← ratOf? t, ← ratOf? b)
+  | _ => .error s!"tempo point expected [time, bpm]: {j}"
+
+def chartOf (j : Json) : Except String AChart := do
+  .ok { hits := ← getArr hitOf j "hits", holds := ← getArr holdOf j "holds", bpms := ← getArr bpmOf j "bpms" }
+
+/-- what the harness needs to know about a source chart to place a case inside / outside the parts' hypotheses -/
+def factsJ (c : AChart) : Json :=
+  obj [("keys", optToJson intToJson (keysOf c)),
+       ("first_tempo", optToJson ratToJson (firstTempo c)),
+       ("grid_exact", Json.bool (gridExact c)),
+       ("tempo_on_lines", Json.bool (onMeasureLines (sortBpms c.bpms))),
+       ("before_first_tempo", Json.bool (beforeFirstTempo c)),
+       ("inside_hold", Json.bool (insideHold c)),
+       ("cell_collision", Json.bool (cellCollision c)),
+       ("bpm_3dec", Json.bool (c.bpms.all (fun b => BMS.roundDec Generated.BMS.exbpmDecimals b.2 == b.2))),
+       ("bpm_positive", Json.bool (c.bpms.all (fun b => decide (0 < b.2)))),
+       ("bpm_times_distinct", Json.bool (((sortBpms c.bpms).map (·.1)).eraseDups.length == c.bpms.length)),
+       ("neg_length", Json.bool (c.holds.any (fun h => decide (h.2.2 < 0)))),
+       ("n", natToJson (c.hits.length + c.holds.length)), ("n_bpms", natToJson (normBpms 0 c.bpms).length)]
+
+def chartJ (c : AChart) : Json :=
+  obj [("hits", listToJson hitJ c.hits), ("holds", listToJson holdJ c.holds), ("bpms", listToJson bpmJ c.bpms),
+       ("facts", factsJ c)]
+
+def result (charts : List AChart) (why : List String) (info : List (String × Json)) : Json :=
+  okJson (obj [("charts", listToJson chartJ charts), ("valid", Json.bool why.isEmpty),
+               ("why", listToJson Json.str why), ("info", obj info)])
+
+def strsOf (j : Json) : Except String (List (List Char)) := do
+  .ok ((← arrOf? strOf? j).map String.toList)
+
+/-! ### the five formats -/
+
+def absOsu (j : Json) : Except String Json := do
+  let lines ← strsOf (← field j "lines")
+  match Osu.denote lines with
+  | .error e => .ok (errJson e.toString)
+  | .ok c =>
+    let ls := (lines.map Osu.strip).filter (fun l => l ≠ [])
+    let secs := (Osu.sections ls).2
+    let tp := (Osu.body "[TimingPoints]" secs).filter (fun l => !Osu.isComment l)
+    let ho := (Osu.body "[HitObjects]" secs).filter (fun l => !Osu.isComment l)
+    let k := Osu.pyTrunc c.md.circleSize
+    let a := ofOsu c
+    let why := (if tp.all Osu.wfTimingLine then [] else ["a [TimingPoints] line is not of the dialect"]) ++
+               (if ho.all Osu.wfObjLine then [] else ["a [HitObjects] line is not of the dialect"]) ++
+               (if c.md.mode = 3 then [] else ["Mode is not 3 (mania)"]) ++
+               (if decide ((k : Rat) = c.md.circleSize) && decide (1 ≤ k) then [] else ["CircleSize is not a positive integer"]) ++
+               (if (a.hits.map (·.2) ++ a.holds.map (·.2.1)).all (fun col => decide (0 ≤ col) && decide (col < k)) then []
+                else ["a column is outside 0..K-1"])
+    .ok (result [a] why [("keys", intToJson k), ("n_svs", natToJson c.svs.length),
+                         ("sv_times", listToJson ratToJson (c.svs.map (·.offset)))])
+
+def absQua (j : Json) : Except String Json := do
+  let d ← C06.docOfJson (← field j "doc")
+  match ofQuaDoc d with
+  | .error e => .ok (errJson e.toString)
+  | .ok a =>
+    let mode : String := match d.info.lookup "Mode" with
+      | some (.str s) => s
+      | none => "Keys4"      -- the format's (and the reader's) default
+      | _ => ""
+    let offending := Qua.Spec.offending d
+    let why := (if Qua.Spec.docAllowed d then [] else ["a key / value type outside the format: " ++
+      String.intercalate "," (offending.map (fun p => p.1 ++ "." ++ p.2))])
+    let svTimes : List Rat := (d.sliderVelocities.getD []).filterMap fun r =>
+      match r.get "StartTime" with
+      | none => some 0
+      | some v => (Qua.numOf v).toOption
+    .ok (result [a] why [("mode", Json.str mode),
+                         ("only_keysounds", Json.bool (!offending.isEmpty && offending.all (fun p => p.2 = "KeySounds"))),
+                         ("allowed_without_keysounds", Json.bool (Qua.Spec.docAllowed (dropKs d))),
+                         ("objs_declared", Json.bool (Qua.Spec.objsDeclared (dropKs d))),
+                         ("sv_zero", Json.bool ((d.sliderVelocities.getD []).any fun r =>
+                            match r.get "Multiplier" with
+                            | some v => (match Qua.numOf v with | .ok q => decide (q = 0) | .error _ => true)
+                            | none => false)),
+                         ("sv_times", listToJson ratToJson svTimes)])
+
+def smKeys (ty : List Char) : Option Nat := SM.getKeys ty
+
+def absSM (j : Json) : Except String Json := do
+  let t ← getStr j "text"
+  match SM.denote t.toList with
+  | none => .ok (errJson "msd")
+  | some d =>
+    match ofSM d with
+    | none => .ok (errJson "timing")
+    | some charts =>
+      let perChart := d.charts.map fun c =>
+        (if c.wellBracketed then [] else ["a chart is not well bracketed"]) ++
+        (if c.rowsMult4 then [] else ["a measure's row count is not a multiple of 4"]) ++
+        (match smKeys c.chartType with
+         | some k => if c.notes.all (fun n => decide (n.col < k)) then [] else ["a symbol beyond the chart type's key count"]
+         | none => ["chart type without a key count"])
+      let why := (if d.chartsWellFormed then [] else ["a #NOTES value does not have six parameters"]) ++
+                 (if d.stopsPresent && !d.stopsEmpty then ["non-empty #STOPS"] else []) ++ perChart.flatten
+      .ok (result charts why
+        [("chart_types", listToJson (fun c => Json.str (String.ofList c.chartType)) d.charts),
+         ("keys", listToJson (fun c => optToJson natToJson (smKeys c.chartType)) d.charts),
+         ("extra_kinds", listToJson (fun c => Json.bool (c.notes.any (fun n => n.kind ≠ SM.Kind.hit ∧ n.kind ≠ SM.Kind.hold))) d.charts),
+         ("stops_present", Json.bool d.stopsPresent),
+         ("tempo_on_grid", Json.bool (match d.bpms with | some b => SM.tempoOnGrid b | none => false)),
+         ("offset_ms", optToJson ratToJson (d.offsetSec.map (fun o => -(1000 * o))))])
+
+def absBMS (j : Json) : Except String Json := do
+  let n ← getStr j "layout"
+  let lay ← match BMS.bookLayout n with
+    | some l => .ok l
+    | none => .error s!"unknown layout {n}"
+  let lines ← getArr C04.bytesOf? j "lines"
+  let notes := match BMS.parseDoc lines with | .ok d => d.notes | .error _ => []
+  let lnobj : BMS.Bytes := match BMS.parseDoc lines with
+    | .ok d => (BMS.dictGet? d.header "LNOBJ".toList).getD []
+    | .error _ => []
+  let timeSig := notes.any (fun d => d.2.1 = lay.timeSig)
+  match BMS.denote lay lines with
+  | none => .ok (obj [("err", Json.str "denote"), ("time_sig", Json.bool timeSig)])
+  | some d =>
+    let g := grid defaultMaxDiv
+    let dataLines := (lines.map BMS.strip).filter BMS.isDataLine
+    let why := (if dataLines.all BMS.lineValid then [] else ["a data line is not #mmmcc: + an even number of base-36 characters"])
+    .ok (result [ofBMS d] why
+      [("grid_compatible", Json.bool (gridCompatible g d.tempo)),
+       ("header_texts_present", Json.bool (d.header.title.isSome && d.header.artist.isSome && d.header.version.isSome)),
+       ("resnap_stable", Json.bool (C04.resnapStable defaultGrid d.tempo)),
+       ("lanes_ordered", Json.bool (C04.lanesOrdered lay notes)),
+       ("d05", Json.bool (C04.d05Pred lay lnobj notes)),
+       ("time_sig", Json.bool timeSig),
+       ("max_measure", intToJson ((d.shits.map (·.snap.measure) ++ d.sholds.map (·.tail.measure) ++
+                                   d.tempo.map (·.snap.measure)).foldl max 0))])
+
+def absO2J (j : Json) : Except String Json := do
+  let bs ← getArr natOf? j "b"
+  match O2J.Spec.specMeta bs with
+  | .error e => .ok (errJson e.toString)
+  | .ok hdr =>
+    let counts : List Int := match O2J.lookupMeta hdr "package_count" with | some (.list l) => O2J.intsOf l | _ => []
+    let init : Option Rat := match O2J.lookupMeta hdr "bpm" with | some (.flt (.fin q)) => some q | _ => none
+    match O2J.Spec.frameLevels counts (bs.drop O2J.Spec.headerSize), init with
+    | some lvls, some q =>
+      let outs := lvls.map (O2J.Spec.specLevel q)
+      let doms := lvls.map O2J.Spec.levelDom
+      if outs.all (fun o => match o with | .ok _ => true | .error _ => false) then
+        let charts := outs.filterMap (fun o => match o with | .ok l => some (ofO2J l) | .error _ => none)
+        let why := (if decide (0 < q) then [] else ["header tempo not positive"]) ++
+          (if doms.all (fun d => d.noMeasureFraction && d.temposPositive && d.measuresNonneg && d.closed && d.paired) then []
+           else ["a level is outside C07's domain (measure fraction / tempo / measure / open long note)"])
+        .ok (result charts why [("levels", natToJson lvls.length)])
+      else .ok (errJson "pairing")
+    | _, _ => .ok (errJson "framing")
+
+def resOf (j : Json) : Except String Res :=
+  match j with
+  | Json.str "ms" => .ok .ms
+  | Json.arr #[f, g] => do .ok (.beat (← ratOf? f) (← ratOf? g))
+  | _ => .error s!"resolution expected \"ms\" or [f, g]: {j}"
+
+def handle (op : String) (j : Json) : Except String Json := do
   match op with
+  | "c09.abs" =>
+    match ← getStr j "fmt" with
+    | "osu" => absOsu j
+    | "qua" => absQua j
+    | "sm" => absSM j
+    | "bms" => absBMS j
+    | "o2j" => absO2J j
+    | f => .error s!"unknown format {f}"
+  | "c09.close" =>
+    let eps ← getRat j "eps"
+    let res ← resOf (← field j "res")
+    let exact ← getBool j "exact"
+    let shift ← getInt j "shift"
+    let a ← chartOf (← field j "a")
+    let b ← chartOf (← field j "b")
+    let v := closeVerdict eps res exact shift a b
+    .ok (okJson (obj [("close", Json.bool v.all), ("hits", Json.bool v.hits), ("holds", Json.bool v.holds),
+                      ("bpms", Json.bool v.bpms),
+                      ("crowded", Json.bool (match res with | .ms => false | .beat _ _ => crowded res a)),
+                      ("tempo_crowded", Json.bool (tempoCrowded res a)),
+                      ("norm_a", listToJson bpmJ (normBpms eps a.bpms)), ("norm_b", listToJson bpmJ (normBpms eps b.bpms))]))
+  | "c09.facts" =>
+    let a ← chartOf (← field j "a")
+    .ok (okJson (factsJ a))
+  | "c09.crowded" =>
+    let res ← resOf (← field j "res")
+    let a ← chartOf (← field j "a")
+    .ok (okJson (obj [("crowded", Json.bool (match res with | .ms => false | .beat _ _ => crowded res a)),
+                      ("tempo_crowded", Json.bool (tempoCrowded res a))]))
   | _ => .error s!"unknown op {op}"
 
 end Reamber.C09
